@@ -8,14 +8,14 @@ from .. import VERIF_DIR, docprops, pool, universes
 from ..ddmin import minimize_doc
 from ..runner import Run, h64
 
-QUICK = {"B2": 8000, "B3": 5000, "B4": 4000, "I4": 6000, "I6": 2000, "N1": 7000, "W1": 4000, "S2": 3000, "S3": 1782, "U1": 2000, "X2": 1500, "H4": 1500, "M5": 4000, "L1": 2400, "P2": 2500, "R2": 2500, "R3": 1500, "K7": 2000}
+QUICK = {"B2": 8000, "B3": 5000, "B4": 4000, "I4": 6000, "I6": 2000, "N1": 7000, "W1": 4000, "S2": 3000, "S3": 1782, "U1": 2000, "X2": 1500, "H4": 1500, "M5": 4000, "L1": 2400, "P2": 2500, "R2": 2500, "R3": 1500, "K7": 2000, "T4": 2000}
 FIRST = {"B2": 1452, "I4": 130, "I6": 8, "U1": 216, "X2": 35}
 UNIVERSES = {
-    "C01": ["B2", "B3", "B4", "I4", "I6", "N1", "W1", "S2", "S3", "U1", "X2", "H4", "M5", "L1", "P2", "R2", "R3", "K7"],
-    "C02": ["B2", "B3", "B4", "I4", "I6", "N1", "W1", "S2", "S3", "U1", "X2", "H4", "M5", "L1", "P2", "R2", "R3", "K7"],
-    "C03": ["B2", "B3", "B4", "I4", "I6", "N1", "W1", "S2", "S3", "X2", "H4", "M5", "L1", "P2", "R2", "R3", "K7"],
-    "C04": ["B2", "B3", "B4", "I4", "I6", "N1", "W1", "S2", "S3", "U1", "X2", "H4", "M5", "L1", "P2", "R2", "R3", "K7"],
-    "C05": ["B2", "B3", "B4", "I4", "I6", "N1", "W1", "S2", "S3", "U1", "X2", "H4", "M5", "L1", "P2", "R2", "R3", "K7"],
+    "C01": ["B2", "B3", "B4", "I4", "I6", "N1", "W1", "S2", "S3", "U1", "X2", "H4", "M5", "L1", "P2", "R2", "R3", "K7", "T4"],
+    "C02": ["B2", "B3", "B4", "I4", "I6", "N1", "W1", "S2", "S3", "U1", "X2", "H4", "M5", "L1", "P2", "R2", "R3", "K7", "T4"],
+    "C03": ["B2", "B3", "B4", "I4", "I6", "N1", "W1", "S2", "S3", "X2", "H4", "M5", "L1", "P2", "R2", "R3", "K7", "T4"],
+    "C04": ["B2", "B3", "B4", "I4", "I6", "N1", "W1", "S2", "S3", "U1", "X2", "H4", "M5", "L1", "P2", "R2", "R3", "K7", "T4"],
+    "C05": ["B2", "B3", "B4", "I4", "I6", "N1", "W1", "S2", "S3", "U1", "X2", "H4", "M5", "L1", "P2", "R2", "R3", "K7", "T4"],
 }
 RULES = {
     "C01": "documents = ranks of the bounded-exhaustive universes (line-vocabulary products B2/B3/B4, inline fragment products I4/I6, single-edit neighbourhood N1 and container wraps W1 of the test-suite's own documents, structured nests S2/S3, unicode U1, extension syntax X2) + scaling families + Hypothesis structured documents; oracle: transform() returns and python-function-entry work <= 20000+50*(n+20)^2; non-trivial = document contains a container marker, leaf-block opener or inline delimiter; distinct by source hash",
